@@ -1,1 +1,591 @@
+/-
+  Helper lemmas for property C01 (bit packing): refinement of the cursor-based packer `PB`
+  against the bit-string specification. Core Lean only.
+-/
 import BespokeVerif.Model.Bits
+namespace BV
+
+/-! ## decidable equality on `Except` (needed for closed `decide +kernel` examples) -/
+
+instance instDecidableEqExcept {ε α} [DecidableEq ε] [DecidableEq α] : DecidableEq (Except ε α)
+  | .ok a, .ok b =>
+    if h : a = b then isTrue (by rw [h]) else isFalse (fun h' => h (Except.ok.inj h'))
+  | .error a, .error b =>
+    if h : a = b then isTrue (by rw [h]) else isFalse (fun h' => h (Except.error.inj h'))
+  | .ok _, .error _ => isFalse (fun h => nomatch h)
+  | .error _, .ok _ => isFalse (fun h => nomatch h)
+
+/-! ## abstraction of a packer state as a bit string -/
+
+/-- the eight bits of a byte, MSB first -/
+def byteBits (x : Nat) : List Bool := [7,6,5,4,3,2,1,0].map (fun i => x.testBit i)
+
+/-- the top `k` bits (bit 7 downwards) of a byte, MSB first -/
+def topBits (x : Nat) : Nat → List Bool
+  | 0 => []
+  | k+1 => topBits x k ++ [x.testBit (7 - k)]
+
+/-- abstraction function: the bits written so far -/
+def PB.abs (s : PB) : List Bool :=
+  s.done.flatMap byteBits ++ topBits s.cur (7 - s.bit).toNat
+
+/-- representation invariant -/
+def PB.Inv (s : PB) : Prop :=
+  -1 ≤ s.bit ∧ s.bit ≤ 7 ∧ (∀ j : Nat, (j : Int) ≤ s.bit → s.cur.testBit j = false)
+    ∧ s.cur < 256 ∧ (∀ x ∈ s.done, x < 256)
+
+theorem PB.init_inv : PB.init.Inv := by
+  refine ⟨by decide, by decide, ?_, by decide, ?_⟩
+  · intro j _; simp [PB.init]
+  · intro x hx; simp [PB.init] at hx
+
+theorem PB.init_abs : PB.init.abs = [] := by
+  simp [PB.init, PB.abs, topBits]
+
+theorem byteBits_length (x : Nat) : (byteBits x).length = 8 := by simp [byteBits]
+
+theorem topBits_length (x k : Nat) : (topBits x k).length = k := by
+  induction k with
+  | zero => rfl
+  | succ k ih => simp [topBits, ih]
+
+theorem flatMap_byteBits_length (l : List Nat) : (l.flatMap byteBits).length = 8 * l.length := by
+  induction l with
+  | nil => rfl
+  | cons x xs ih => simp [List.flatMap_cons, byteBits_length, ih]; omega
+
+theorem PB.abs_length (s : PB) : s.abs.length = 8 * s.done.length + (7 - s.bit).toNat := by
+  unfold PB.abs
+  rw [List.length_append, flatMap_byteBits_length, topBits_length]
+
+theorem topBits_eight (x : Nat) : topBits x 8 = byteBits x := by
+  simp [topBits, byteBits]
+
+theorem topBits_congr (x y : Nat) (k : Nat) (hk : k ≤ 8)
+    (h : ∀ j, 8 ≤ j + k → j ≤ 7 → x.testBit j = y.testBit j) :
+    topBits x k = topBits y k := by
+  induction k with
+  | zero => rfl
+  | succ k ih =>
+    simp only [topBits]
+    rw [ih (by omega) (fun j h1 h2 => h j (by omega) h2)]
+    rw [h (7 - k) (by omega) (by omega)]
+
+theorem setBit_testBit (x k j : Nat) (b : Bool) :
+    (x ||| (b.toNat <<< k)).testBit j = (x.testBit j || (b && decide (j = k))) := by
+  rw [Nat.testBit_or, Nat.testBit_shiftLeft]
+  cases b with
+  | false => simp
+  | true =>
+    simp only [Bool.toNat_true, Bool.true_and]
+    by_cases h : j = k
+    · subst h; simp
+    · by_cases h2 : k ≤ j
+      · have : j - k ≠ 0 := by omega
+        simp [h, h2, Nat.testBit_one_eq_true_iff_self_eq_zero, this]
+      · simp [h, h2]
+
+theorem setBit_lt (x k : Nat) (b : Bool) (hx : x < 256) (hk : k ≤ 7) :
+    x ||| (b.toNat <<< k) < 256 := by
+  have h256 : (256 : Nat) = 2 ^ 8 := by decide
+  rw [h256] at hx ⊢
+  apply Nat.or_lt_two_pow hx
+  rw [Nat.shiftLeft_eq]
+  have h1 : b.toNat ≤ 1 := by cases b <;> simp
+  have h2 : 2 ^ k ≤ 2 ^ 7 := Nat.pow_le_pow_right (by decide) hk
+  calc b.toNat * 2 ^ k ≤ 1 * 2 ^ 7 := Nat.mul_le_mul h1 h2
+    _ < 2 ^ 8 := by decide
+
+/-- core step when the cursor is inside a byte -/
+theorem push_inside (c : Nat) (k : Nat) (hk : k ≤ 7) (b : Bool)
+    (hz : ∀ j : Nat, j ≤ k → c.testBit j = false) :
+    topBits (c ||| (b.toNat <<< k)) (7 - k + 1) = topBits c (7 - k) ++ [b] := by
+  simp only [topBits]
+  congr 1
+  · apply topBits_congr _ _ _ (by omega)
+    intro j h1 h2
+    rw [setBit_testBit]
+    have : j ≠ k := by omega
+    simp [this]
+  · have : 7 - (7 - k) = k := by omega
+    rw [this, setBit_testBit, hz k (Nat.le_refl _)]
+    simp
+
+/-- one-bit refinement step -/
+theorem pushBit_abs (s : PB) (b : Bool) (h : s.Inv) :
+    (s.pushBit b).abs = s.abs ++ [b] ∧ (s.pushBit b).Inv ∧ (s.pushBit b).bit < 7 := by
+  obtain ⟨h1, h2, h3, h4, h5⟩ := h
+  unfold PB.pushBit PB.abs PB.Inv
+  by_cases hneg : s.bit < 0
+  · have hb : s.bit = -1 := by omega
+    simp only [hneg, if_true]
+    refine ⟨?_, ⟨by omega, by omega, ?_, ?_, ?_⟩, by omega⟩
+    · simp only [hb]
+      have e1 : (7 - (7 - 1 : Int)).toNat = 0 + 1 := by decide
+      have e2 : (7 - (-1 : Int)).toNat = 8 := by decide
+      have e3 : (7:Int).toNat = 7 := by decide
+      rw [e1, e2, e3, topBits_eight]
+      simp only [List.flatMap_append, List.flatMap_cons, List.flatMap_nil, List.append_nil, topBits,
+        List.nil_append, List.append_assoc]
+      congr 2
+      rw [setBit_testBit]; simp
+    · intro j hj
+      have : (7:Int).toNat = 7 := by decide
+      rw [this, setBit_testBit]
+      have : j ≠ 7 := by omega
+      simp [this]
+    · have : (7:Int).toNat = 7 := by decide
+      rw [this]
+      exact setBit_lt 0 7 b (by decide) (by decide)
+    · intro x hx
+      rcases List.mem_append.mp hx with hx | hx
+      · exact h5 x hx
+      · simp at hx; omega
+  · simp only [hneg, if_false]
+    have hk : ∃ k : Nat, s.bit = k ∧ k ≤ 7 := ⟨s.bit.toNat, by omega, by omega⟩
+    obtain ⟨k, hk1, hk2⟩ := hk
+    refine ⟨?_, ⟨by omega, by omega, ?_, ?_, h5⟩, by omega⟩
+    · rw [hk1]
+      have e1 : (7 - ((k:Int) - 1)).toNat = 7 - k + 1 := by omega
+      have e2 : (7 - (k:Int)).toNat = 7 - k := by omega
+      have e3 : (k:Int).toNat = k := by omega
+      rw [e1, e2, e3, push_inside s.cur k hk2 b (fun j hj => h3 j (by omega))]
+      simp
+    · intro j hj
+      rw [hk1] at hj
+      have e3 : s.bit.toNat = k := by omega
+      rw [e3, setBit_testBit, h3 j (by omega)]
+      have : j ≠ k := by omega
+      simp [this]
+    · have e3 : s.bit.toNat = k := by omega
+      rw [e3]
+      exact setBit_lt s.cur k b h4 hk2
+
+/-- the low `cnt` bits of a byte, most significant first -/
+def lowBits (x cnt : Nat) : List Bool := (List.range cnt).reverse.map x.testBit
+
+theorem lowBits_succ (x cnt : Nat) : lowBits x (cnt + 1) = x.testBit cnt :: lowBits x cnt := by
+  simp [lowBits, List.range_succ]
+
+theorem pushByteBits_abs (x cnt : Nat) (s : PB) (h : s.Inv) :
+    (s.pushByteBits x cnt).abs = s.abs ++ lowBits x cnt ∧ (s.pushByteBits x cnt).Inv
+      ∧ (0 < cnt ∨ s.bit < 7 → (s.pushByteBits x cnt).bit < 7) := by
+  induction cnt generalizing s with
+  | zero => simp [PB.pushByteBits, lowBits, h]
+  | succ cnt ih =>
+    obtain ⟨a1, a2, a3⟩ := pushBit_abs s (x.testBit cnt) h
+    obtain ⟨b1, b2, b3⟩ := ih (s.pushBit (x.testBit cnt)) a2
+    simp only [PB.pushByteBits]
+    refine ⟨?_, b2, fun _ => b3 (Or.inr a3)⟩
+    rw [b1, a1, lowBits_succ]; simp
+
+theorem topBits_zero_ext (x k m : Nat) (hkm : k + m ≤ 8)
+    (hz : ∀ j, j + k < 8 → x.testBit j = false) :
+    topBits x (k + m) = topBits x k ++ List.replicate m false := by
+  induction m with
+  | zero => simp
+  | succ m ih =>
+    rw [← Nat.add_assoc, topBits, ih (by omega), List.replicate_succ', hz (7 - (k + m)) (by omega)]
+    simp
+
+theorem padTo8_abs (s : PB) (h : s.Inv) (hb : s.bit < 7) :
+    padTo8 s.abs = s.bytes.flatMap byteBits := by
+  obtain ⟨h1, h2, h3, h4, h5⟩ := h
+  obtain ⟨k, hk⟩ : ∃ k : Nat, k = (7 - s.bit).toNat := ⟨_, rfl⟩
+  unfold padTo8
+  rw [PB.abs_length, ← hk]
+  unfold PB.abs PB.bytes
+  rw [← hk, List.flatMap_append, List.append_assoc]
+  congr 1
+  simp only [List.flatMap_cons, List.flatMap_nil, List.append_nil]
+  rw [← topBits_eight]
+  have e : (8 - (8 * s.done.length + k) % 8) % 8 = 8 - k := by omega
+  rw [e]
+  have := topBits_zero_ext s.cur k (8 - k) (by omega) (fun j hj => h3 j (by omega))
+  rw [← this]; congr 1; omega
+
+theorem alignIf_abs (s : PB) (a : Bool) (h : s.Inv) :
+    (s.alignIf a).abs = (if a then padTo8 s.abs else s.abs) ∧ (s.alignIf a).Inv
+      ∧ (s.bit < 7 → a = false → (s.alignIf a).bit < 7) := by
+  unfold PB.alignIf
+  cases a with
+  | false => simp [h]
+  | true =>
+    by_cases hb : s.bit < 7
+    · simp only [Bool.true_and, hb, decide_true, if_true]
+      refine ⟨?_, ?_, by simp⟩
+      · rw [padTo8_abs s h hb]; simp [PB.abs, PB.bytes, topBits]
+      · obtain ⟨h1, h2, h3, h4, h5⟩ := h
+        refine ⟨by simp, by simp, by simp, by simp, ?_⟩
+        intro x hx
+        rcases List.mem_append.mp hx with hx | hx
+        · exact h5 x hx
+        · simp at hx; omega
+    · simp only [Bool.true_and, hb, decide_false, if_true]
+      refine ⟨?_, h, by simp⟩
+      have : s.bit = 7 := by have := h.2.1; omega
+      simp [padTo8, PB.abs_length, this]
+
+theorem byteAt_testBit (v : Int) (k b : Nat) (hb : b < 8) :
+    (byteAt v k).testBit b = bitAt v (8 * k + b) := by
+  unfold byteAt bitAt
+  have e : (2 : Int) ^ (8 * k + b) = 256 ^ k * 2 ^ b := by
+    rw [Int.pow_add, Int.pow_mul]; rfl
+  have hp : (0 : Int) ≤ 256 ^ k := Int.pow_nonneg (by decide)
+  rw [e, ← Int.ediv_ediv_of_nonneg hp, Nat.testBit_eq_decide_div_mod_eq]
+  generalize v / 256 ^ k = w
+  have hb' : b = 0 ∨ b = 1 ∨ b = 2 ∨ b = 3 ∨ b = 4 ∨ b = 5 ∨ b = 6 ∨ b = 7 := by omega
+  have : ((w % 256).toNat / 2 ^ b % 2 = 1) ↔ (w / 2 ^ b % 2 = 1) := by
+    rcases hb' with rfl | rfl | rfl | rfl | rfl | rfl | rfl | rfl <;> omega
+  rw [Bool.eq_iff_iff]
+  simp only [decide_eq_true_eq, beq_iff_eq]
+  exact this
+
+/-- the bits emitted by `PB.pushBytes` -/
+def pbBits (size firstIdx : Nat) : List Nat → Nat → List Bool
+  | [], _ => []
+  | x :: xs, idx =>
+    lowBits x (if idx = firstIdx then (size + 7) % 8 + 1 else 8) ++ pbBits size firstIdx xs (idx + 1)
+
+theorem pushBytes_abs (size firstIdx : Nat) (xs : List Nat) (idx : Nat) (s : PB) (h : s.Inv) :
+    (s.pushBytes size firstIdx xs idx).abs = s.abs ++ pbBits size firstIdx xs idx
+      ∧ (s.pushBytes size firstIdx xs idx).Inv
+      ∧ (xs ≠ [] ∨ s.bit < 7 → (s.pushBytes size firstIdx xs idx).bit < 7) := by
+  induction xs generalizing s idx with
+  | nil => simp [PB.pushBytes, pbBits, h]
+  | cons x xs ih =>
+    simp only [PB.pushBytes, pbBits]
+    have hc : 0 < (if idx = firstIdx then (size + 7) % 8 + 1 else 8) := by split <;> omega
+    generalize (if idx = firstIdx then (size + 7) % 8 + 1 else 8) = cnt at hc ⊢
+    obtain ⟨a1, a2, a3⟩ := pushByteBits_abs x cnt s h
+    obtain ⟨b1, b2, b3⟩ := ih (idx + 1) (s.pushByteBits x cnt) a2
+    refine ⟨?_, b2, fun _ => b3 (Or.inr (a3 (Or.inl hc)))⟩
+    rw [b1, a1]; simp
+
+
+/-- bits `8k+c-1 … 8k` of `v`, most significant first -/
+def segBits (v : Int) (k c : Nat) : List Bool := (List.range c).reverse.map fun b => bitAt v (8 * k + b)
+
+theorem lowBits_byteAt (v : Int) (k c : Nat) (hc : c ≤ 8) : lowBits (byteAt v k) c = segBits v k c := by
+  unfold lowBits segBits
+  apply List.map_congr_left
+  intro b hb
+  have : b < c := by simpa using hb
+  exact byteAt_testBit v k b (by omega)
+
+theorem pbBits_full (size firstIdx : Nat) (xs : List Nat) (idx : Nat)
+    (h : ∀ i, idx ≤ i → i < idx + xs.length → i ≠ firstIdx) :
+    pbBits size firstIdx xs idx = xs.flatMap (fun x => lowBits x 8) := by
+  induction xs generalizing idx with
+  | nil => rfl
+  | cons x xs ih =>
+    have h0 : idx ≠ firstIdx := h idx (Nat.le_refl _) (by simp)
+    simp only [pbBits, h0, if_false, List.flatMap_cons]
+    rw [ih (idx + 1) (fun i h1 h2 => h i (by omega) (by simp; omega))]
+
+theorem pbBits_append (size firstIdx : Nat) (xs ys : List Nat) (idx : Nat) :
+    pbBits size firstIdx (xs ++ ys) idx
+      = pbBits size firstIdx xs idx ++ pbBits size firstIdx ys (idx + xs.length) := by
+  induction xs generalizing idx with
+  | nil => simp [pbBits]
+  | cons x xs ih =>
+    simp only [List.cons_append, pbBits, ih, List.length_cons, List.append_assoc]
+    congr 3; omega
+
+theorem range_rev_split (v : Int) (l c : Nat) :
+    (List.range (8 * l + c)).reverse.map (bitAt v)
+      = segBits v l c ++ (List.range (8 * l)).reverse.map (bitAt v) := by
+  rw [List.range_add, List.reverse_append, List.map_append]
+  congr 1
+  simp [segBits, List.map_reverse]
+
+theorem bigBits (v : Int) (l : Nat) :
+    (List.range (8 * l)).reverse.map (bitAt v)
+      = ((List.range l).reverse.map (byteAt v)).flatMap (fun x => lowBits x 8) := by
+  induction l with
+  | zero => rfl
+  | succ l ih =>
+    rw [Nat.mul_succ, range_rev_split, ih, List.range_succ, List.reverse_append]
+    simp [lowBits_byteAt]
+
+theorem size_split (n : Nat) (hn : 1 ≤ n) :
+    ∃ l, ceil8 n = l + 1 ∧ n = 8 * l + ((n + 7) % 8 + 1) := by
+  refine ⟨(n + 7) / 8 - 1, ?_, ?_⟩
+  · unfold ceil8; omega
+  · omega
+
+theorem pbBits_valueBytes (v : Int) (n : Nat) (little : Bool) :
+    pbBits n (if little then ceil8 n - 1 else 0) (valueBytes v (ceil8 n) little) 0
+      = fieldBits v n little := by
+  by_cases hn : n = 0
+  · subst hn; cases little <;> simp [ceil8, valueBytes, pbBits, fieldBits]
+  obtain ⟨l, hl, hs⟩ := size_split n (by omega)
+  generalize hc : (n + 7) % 8 + 1 = c at hs
+  have hc8 : c ≤ 8 := by omega
+  cases little with
+  | false =>
+    simp only [valueBytes, fieldBits, hl, Bool.false_eq_true, if_false]
+    rw [List.range_succ, List.reverse_append]
+    simp only [List.reverse_cons, List.reverse_nil, List.nil_append, List.singleton_append,
+      List.map_cons, pbBits, if_true, hc]
+    rw [pbBits_full _ _ _ _ (by intro i h1 h2; omega), lowBits_byteAt _ _ _ hc8, ← bigBits]
+    conv => rhs; rw [hs]
+    rw [range_rev_split]
+  | true =>
+    simp only [valueBytes, fieldBits, hl, if_true, Nat.add_sub_cancel]
+    rw [List.range_succ, List.map_append, pbBits_append,
+      pbBits_full _ _ _ _ (by intro i h1 h2; simp at h2; omega)]
+    have e : n - 8 * l = c := by omega
+    simp only [List.map_cons, List.map_nil, pbBits, List.length_map, List.length_range,
+      Nat.zero_add, if_true, hc, List.append_nil, e]
+    rw [lowBits_byteAt _ _ _ hc8]
+    congr 1
+    rw [List.flatMap_map]
+    congr 1
+    funext j
+    exact lowBits_byteAt v j 8 (Nat.le_refl _)
+
+theorem valueBytes_ne_nil (v : Int) (n : Nat) (little : Bool) (hn : 1 ≤ n) :
+    valueBytes v (ceil8 n) little ≠ [] := by
+  obtain ⟨l, hl, _⟩ := size_split n hn
+  intro h
+  have := congrArg List.length h
+  cases little <;> simp [valueBytes, hl] at this
+
+theorem appendBits_abs (s : PB) (f : Field) (h : s.Inv) (hf : Fits f.value f.size) :
+    ∃ s', s.appendBits f = .ok s'
+      ∧ s'.abs = (if f.align then padTo8 s.abs else s.abs) ++ fieldBits f.value f.size f.little
+      ∧ s'.Inv ∧ (1 ≤ f.size → s'.bit < 7) := by
+  obtain ⟨a1, a2, _⟩ := alignIf_abs s f.align h
+  obtain ⟨b1, b2, b3⟩ := pushBytes_abs f.size (if f.little then ceil8 f.size - 1 else 0)
+    (valueBytes f.value (ceil8 f.size) f.little) 0 (s.alignIf f.align) a2
+  refine ⟨_, by simp only [PB.appendBits, hf, not_true_eq_false, if_false], ?_, b2, ?_⟩
+  · rw [b1, a1, pbBits_valueBytes]
+  · intro hn
+    exact b3 (Or.inl (valueBytes_ne_nil _ _ _ hn))
+
+theorem appendAll_abs (fs : List Field) (s : PB) (h : s.Inv)
+    (hf : ∀ f ∈ fs, 1 ≤ f.size ∧ Fits f.value f.size) :
+    ∃ s', s.appendAll fs = .ok s' ∧ s'.abs = layout fs s.abs ∧ s'.Inv
+      ∧ (fs ≠ [] ∨ s.bit < 7 → s'.bit < 7) := by
+  induction fs generalizing s with
+  | nil => exact ⟨s, rfl, rfl, h, by simp⟩
+  | cons f fs ih =>
+    obtain ⟨hf1, hf2⟩ := hf f (by simp)
+    obtain ⟨s1, a1, a2, a3, a4⟩ := appendBits_abs s f h hf2
+    obtain ⟨s2, b1, b2, b3, b4⟩ := ih s1 a3 (fun g hg => hf g (by simp [hg]))
+    refine ⟨s2, ?_, ?_, b3, fun _ => b4 (Or.inr (a4 hf1))⟩
+    · simp only [PB.appendAll, a1]; exact b1
+    · rw [b2, a2]; rfl
+
+theorem bitsToNat_byteBits (x : Nat) (hx : x < 256) : bitsToNat (byteBits x) = x := by
+  simp only [byteBits, List.map_cons, List.map_nil, bitsToNat, List.length_cons, List.length_nil,
+    Nat.toNat_testBit]
+  omega
+
+theorem pack8_flatMap_byteBits (l : List Nat) (fuel : Nat) (hfuel : l.length ≤ fuel)
+    (hl : ∀ x ∈ l, x < 256) : pack8 fuel (l.flatMap byteBits) = l := by
+  induction l generalizing fuel with
+  | nil => cases fuel <;> simp [pack8]
+  | cons x xs ih =>
+    cases fuel with
+    | zero => simp at hfuel
+    | succ fuel =>
+      have hlen : (byteBits x).length = 8 := byteBits_length x
+      rw [List.flatMap_cons]
+      have hne : byteBits x ++ xs.flatMap byteBits ≠ [] := by
+        intro h; have := congrArg List.length h; simp [hlen] at this
+      rw [pack8]
+      · rw [List.take_left' hlen, List.drop_left' hlen, bitsToNat_byteBits x (hl x (by simp)),
+          ih fuel (by simpa using hfuel) (fun y hy => hl y (by simp [hy]))]
+      · exact hne
+
+theorem pack8_length (fuel : Nat) (bits : List Bool) (hfuel : bits.length ≤ fuel) :
+    (pack8 fuel bits).length = ceil8 bits.length := by
+  induction fuel generalizing bits with
+  | zero =>
+    have : bits = [] := List.length_eq_zero_iff.mp (by omega)
+    subst this; simp [pack8, ceil8]
+  | succ fuel ih =>
+    cases bits with
+    | nil => simp [pack8, ceil8]
+    | cons b bs =>
+      rw [pack8, List.length_cons, ih _ (by simp at hfuel ⊢; omega)]
+      · simp only [ceil8, List.length_drop, List.length_cons]; omega
+      · simp
+
+theorem fieldBits_length' (v : Int) (n : Nat) (little : Bool) :
+    (fieldBits v n little).length = n := by
+  cases little with
+  | false => simp [fieldBits]
+  | true =>
+    have hsum : ∀ m : Nat, (List.map (fun (_ : Nat) => 8) (List.range m)).sum = 8 * m := by
+      intro m; induction m with
+      | zero => rfl
+      | succ m ih => simp [List.range_succ, ih]; omega
+    simp [fieldBits, hsum, ceil8]
+    omega
+
+theorem padTo8_length (bits : List Bool) :
+    (padTo8 bits).length = bits.length + (8 - bits.length % 8) % 8 := by
+  simp [padTo8]
+
+theorem layout_length (fs : List Field) (acc : List Bool) :
+    (layout fs acc).length = totalBits fs acc.length := by
+  induction fs generalizing acc with
+  | nil => rfl
+  | cons f fs ih =>
+    simp only [layout, totalBits, ih, List.length_append, fieldBits_length']
+    congr 2
+    cases f.align with
+    | false => simp
+    | true =>
+      simp only [if_true, Bool.true_and, padTo8_length, decide_eq_true_eq]
+      split <;> omega
+
+theorem layout_append (fs gs : List Field) (acc : List Bool) :
+    layout (fs ++ gs) acc = layout gs (layout fs acc) := by
+  induction fs generalizing acc with
+  | nil => rfl
+  | cons f fs ih => simp only [List.cons_append, layout, ih]
+
+theorem ceil8_padTo8 (bits : List Bool) : ceil8 (padTo8 bits).length = ceil8 bits.length := by
+  rw [padTo8_length]; unfold ceil8; omega
+
+theorem bytes_eq_pack8 (s : PB) (h : s.Inv) (hb : s.bit < 7) :
+    pack8 (padTo8 s.abs).length (padTo8 s.abs) = s.bytes := by
+  rw [padTo8_abs s h hb]
+  apply pack8_flatMap_byteBits
+  · rw [flatMap_byteBits_length]; omega
+  · intro x hx
+    obtain ⟨_, _, _, h4, h5⟩ := h
+    rcases List.mem_append.mp hx with hx | hx
+    · exact h5 x hx
+    · simp at hx; omega
+
+theorem byteSizeOf_eq_ceil' (fs : List Field) : byteSizeOf fs = ceil8 (layout fs []).length := by
+  rw [layout_length]; rfl
+
+theorem specBytes_length (fs : List Field) : (specBytes fs).length = byteSizeOf fs := by
+  unfold specBytes
+  simp only
+  rw [pack8_length _ _ (Nat.le_refl _), ceil8_padTo8, byteSizeOf_eq_ceil']
+
+theorem getBytes_eq_spec' (fs : List Field) (hne : fs ≠ [])
+    (h : ∀ f ∈ fs, 1 ≤ f.size ∧ Fits f.value f.size) :
+    getBytes fs = .ok (some (specBytes fs)) := by
+  obtain ⟨s, a1, a2, a3, a4⟩ := appendAll_abs fs PB.init PB.init_inv h
+  have hb := a4 (Or.inl hne)
+  rw [PB.init_abs] at a2
+  have hs : specBytes fs = s.bytes := by
+    unfold specBytes; simp only; rw [← a2]; exact bytes_eq_pack8 s a3 hb
+  have hl : s.bytes.length = byteSizeOf fs := by rw [← hs, specBytes_length]
+  unfold getBytes
+  rw [a1]
+  simp [hl, hs, bind, Except.bind]
+
+/-- the packer fails exactly when some field value does not fit -/
+theorem appendAll_error_iff (fs : List Field) (s : PB) :
+    (∃ e, s.appendAll fs = .error e) ↔ ∃ f ∈ fs, ¬ Fits f.value f.size := by
+  induction fs generalizing s with
+  | nil => simp [PB.appendAll]
+  | cons f fs ih =>
+    by_cases hf : Fits f.value f.size
+    · simp only [PB.appendAll, PB.appendBits, hf, not_true_eq_false, if_false]
+      simp only [bind, Except.bind]
+      rw [ih]; simp [hf]
+    · simp only [PB.appendAll, PB.appendBits, hf, not_false_eq_true, if_true]
+      simp [bind, Except.bind, hf]
+
+theorem appendAll_error_kind (fs : List Field) (s : PB) (e : Err) (h : s.appendAll fs = .error e) :
+    e = .fieldOverflow := by
+  induction fs generalizing s with
+  | nil => simp [PB.appendAll] at h
+  | cons f fs ih =>
+    by_cases hf : Fits f.value f.size
+    · simp only [PB.appendAll, PB.appendBits, hf, not_true_eq_false, if_false] at h
+      exact ih _ h
+    · simp only [PB.appendAll, PB.appendBits, hf, not_false_eq_true, if_true] at h
+      simp [bind, Except.bind] at h
+      exact h.symm
+
+theorem getBytes_error (fs : List Field) (e : Err) :
+    getBytes fs = .error e ↔ PB.init.appendAll fs = .error e := by
+  unfold getBytes
+  cases h : PB.init.appendAll fs with
+  | error e' => simp [bind, Except.bind]
+  | ok s =>
+    simp only [bind, Except.bind]
+    split <;> simp
+
+theorem foldl_cons_opt (g : OpParts → Option Field) (step : List Field → OpParts → List Field)
+    (h : ∀ acc o, step acc o = (g o).toList ++ acc) (ops : List OpParts) (acc : List Field) :
+    ops.foldl step acc = (ops.filterMap g).reverse ++ acc := by
+  induction ops generalizing acc with
+  | nil => rfl
+  | cons o os ih =>
+    rw [List.foldl_cons, ih, h, List.filterMap_cons]
+    cases g o <;> simp
+
+/-- the `insert(0, …)` loop of the implementation builds the reversed prefix group -/
+theorem prefixCodes_eq (ops : List OpParts) :
+    ops.foldl (fun acc o => match o.code with
+      | some (f, .prefix) => f :: acc | _ => acc) [] = prefixGroup ops := by
+  unfold prefixGroup
+  rw [foldl_cons_opt (g := fun o => match o.code with | some (f, .prefix) => some f | _ => none)]
+  · simp only [List.append_nil]; rfl
+  · intro acc o
+    split <;> simp_all
+
+theorem fieldOrder_eq_specOrder' (ops : List OpParts) (opcode : Field) (sfx : Option Field)
+    (revArgs revCodes : Bool) :
+    fieldOrder ops opcode sfx revArgs revCodes = specOrder ops opcode sfx revArgs revCodes := by
+  have h := prefixCodes_eq ops
+  unfold fieldOrder specOrder
+  simp only
+  rw [← h]
+  rfl
+
+theorem flatMap_range_length8 {α} (f : Nat → List α) (hf : ∀ j, (f j).length = 8) (m : Nat) :
+    ((List.range m).flatMap f).length = 8 * m := by
+  induction m with
+  | zero => rfl
+  | succ m ih => rw [List.range_succ, List.flatMap_append, List.length_append, ih]; simp [hf]; omega
+
+theorem flatMap_range_getElem? {α} (f : Nat → List α) (hf : ∀ j, (f j).length = 8) (m j b : Nat)
+    (hj : j < m) (hb : b < 8) : ((List.range m).flatMap f)[8 * j + b]? = (f j)[b]? := by
+  induction m with
+  | zero => omega
+  | succ m ih =>
+    rw [List.range_succ, List.flatMap_append]
+    have hl := flatMap_range_length8 f hf m
+    by_cases hjm : j < m
+    · rw [List.getElem?_append_left (by omega)]; exact ih hjm
+    · have : j = m := by omega
+      subst this
+      rw [List.getElem?_append_right (by omega), hl]
+      simp
+
+theorem revRange_getElem? {α} (g : Nat → α) (c b : Nat) (hb : b < c) :
+    ((List.range c).reverse.map g)[b]? = some (g (c - 1 - b)) := by
+  have hlen : b < ((List.range c).reverse.map g).length := by simpa using hb
+  rw [List.getElem?_eq_getElem hlen]
+  simp [List.getElem_reverse]
+
+theorem fieldBits_little_low' (v : Int) (n j b : Nat) (hj : j + 1 < ceil8 n) (hb : b < 8) :
+    (fieldBits v n true)[8 * j + b]? = some (bitAt v (8 * j + (7 - b))) := by
+  simp only [fieldBits, if_true]
+  have hf : ∀ j, ((List.range 8).reverse.map fun b => bitAt v (8 * j + b)).length = 8 := by simp
+  rw [List.getElem?_append_left (by rw [flatMap_range_length8 _ hf]; omega),
+    flatMap_range_getElem? _ hf _ _ _ (by omega) hb, revRange_getElem? _ _ _ hb]
+
+theorem fieldBits_little_top' (v : Int) (n b : Nat) (_hn : 1 ≤ n) (hb : b < n - 8 * (ceil8 n - 1)) :
+    (fieldBits v n true)[8 * (ceil8 n - 1) + b]? = some (bitAt v (n - 1 - b)) := by
+  simp only [fieldBits, if_true]
+  have hf : ∀ j, ((List.range 8).reverse.map fun b => bitAt v (8 * j + b)).length = 8 := by simp
+  rw [List.getElem?_append_right (by rw [flatMap_range_length8 _ hf]; omega),
+    flatMap_range_length8 _ hf, Nat.add_sub_cancel_left, revRange_getElem? _ _ _ hb]
+  congr 2
+  omega
+
+end BV
